@@ -323,6 +323,23 @@ def write_evidence(pid, tier, seed, st, wall, mod, needed):
 def replay(path):
     """re-run one recorded violation against the current tree, without the explorer"""
     v = json.load(open(path))
+    try:
+        mod = importlib.import_module("props.%s" % v["property"].lower())
+    except Exception:
+        mod = None
+    if mod is not None and hasattr(mod, "replay") and v["build"] in ("ctvictim",):
+        ok, log = builds.build(v["build"])
+        if not ok:
+            print("MACHINERY: cannot build %s" % v["build"])
+            return 2
+        if mod.replay(v):
+            print("replay: the current tree gives the expected observation")
+            return 0
+        print("VIOLATION property=%s replay=%s" % (v["property"], path))
+        return 1
+    if not v.get("program"):
+        print("this record has no replayable program (%s): re-run ./check %s" % (v.get("note") or v.get("observed"), v["property"]))
+        return 2
     ok, log = builds.build(v["build"])
     if not ok:
         sys.stderr.write(log[-2000:])
